@@ -16,6 +16,7 @@ R4 FILE-PARAMETRICITY: File constants, switches on File and left/right steps occ
 R5 RAW-GEOMETRY: no raw word arithmetic on square sets (shifts, +,-,*, BitBoard::new of a computed
    word) in the core outside the audited geometry primitives."""
 from .common import *
+from ..bb import bb
 from .. import tables as T
 from ..expr import mk_constref
 
@@ -207,7 +208,7 @@ def r14(ctx):
             ctx.violation(rule, '%s:%s' % (key, kind), '%s %s (%s): generation/application must be colour- and side-neutral outside the '
                           'mirror primitives' % (key, what, detail), where(body, line))
     ctx.instance('C17.R1', 'symmetric core: %d functions; %d colour/direction/file specific sites in the crate enumerated' % (len(core), nsites), '')
-    ctx.floor('C17.R1', 'functions in the symmetric core', len(core), 40)
+    ctx.floor('C17.R1', 'functions in the symmetric core', len(core), 30)
     ctx.ok('C17.R1', 'no unconfirmed colour-, rank- or direction-specific construct inside the symmetric core', '')
     ctx.ok('C17.R4', 'no unconfirmed file-specific construct inside the symmetric core', '')
 
@@ -406,8 +407,86 @@ def r3(ctx):
     ctx.floor(R, 'tables audited for symmetry', len(ctx.instances.get(R, [])), 17)
 
 
+ACCUM = ('bitxor_assign', 'bitor_assign', 'bitand_assign', 'add_assign', 'push_unchecked', 'push', 'deref_mut')
+
+
+def r6(ctx):
+    """R6 ORDER-INDEPENDENCE.  A square set is iterated from a1 towards h8 -- an order that is neither colour- nor
+    left-right symmetric.  Inside the symmetric core a loop over a square set may therefore carry state from one
+    square to the next only in commutative accumulators (^=, |=, &=, +=, pushes onto the move list), and that state
+    may not be read by the loop body: no branch condition and no other call argument inside the loop may depend on a
+    value carried over from an earlier square."""
+    R = 'C17.R6'
+    f = ctx.facts()
+    an = ctx.an()
+    n = 0
+    for key in sorted(core_set(ctx)):
+        body = f.bodies.get(key)
+        if body is None or not any((t.get('callee') or '').startswith('<bitboard::BitBoard as core::iter::traits::iterator::Iterator>::next')
+                                   for _, t in body.calls()):
+            continue
+        s = an.summary(key)
+        if s is None:
+            continue
+        for l in for_loops(s):
+            if not (l['next']['callee'] or '').startswith('<bitboard::BitBoard as core::iter::traits::iterator::Iterator>::next'):
+                continue
+            n += 1
+            h = l['header']
+            it = l['iter_root']
+
+            def carried(e, skip_outer=False):
+                out = []
+                for x in walk(e):
+                    if isinstance(x, tuple) and len(x) == 3 and x[0] == 'loop' and x[1] == h:
+                        r = x[2]
+                        root = r[0] if (isinstance(r, tuple) and r and isinstance(r[0], tuple)) else r
+                        if root != it:
+                            out.append(x)
+                return out
+            bad = []
+
+            def canon(e):
+                try:
+                    return bb(e, an)       # accessors inlined, field reads resolved against partial updates
+                except Exception:
+                    return norm(e)
+            for b in sorted(l['blocks']):
+                c = s.switches.get(b)
+                cr = carried(canon(c)) if c is not None else []
+                if cr:
+                    bad.append(('branch condition', s.body.blocks[b]['term'].get('line'), cr[0]))
+            for c in s.calls:
+                if c['blk'] not in l['blocks'] or not c['callee']:
+                    continue
+                acc = c['callee'].split('::')[-1] in ACCUM
+                if not acc and c.get('result') is not None:
+                    # what the call can observe: its result with accessors inlined (`combined(&board)` reads one field)
+                    cr = carried(canon(c['result']))
+                    if cr:
+                        bad.append(('the call of %s' % c['callee'].split('::')[-1], c['line'], cr[0]))
+                    continue
+                for i, a in enumerate(c['argvals'] or ()):
+                    if acc and i == 0:
+                        continue            # the accumulator itself
+                    cr = carried(canon(a)) if a is not None else []
+                    if cr:
+                        bad.append(('argument %d of %s' % (i, c['callee'].split('::')[-1]), c['line'], cr[0]))
+            w = where(s.body, l['next']['line'])
+            if bad:
+                what, line, x = bad[0]
+                nm = s.body.locals[x[2][1]].get('name') if isinstance(x[2], tuple) and x[2] and x[2][0] == 'l' else None
+                ctx.violation(R, key + ':carried-state', 'the loop over a square set reads state carried over from the squares visited before '
+                              '(%s at line %s depends on %s%s): the result for a square depends on which squares precede it in a1..h8 order, '
+                              'which mirroring reverses' % (what, line, sh(x, 60), ' = `%s`' % nm if nm else ''), w)
+            else:
+                ctx.ok(R, '%s: loop over a square set carries state only in accumulators it never reads' % key.split('::')[-2 if key.endswith('legals') else -1], w)
+    ctx.floor(R, 'square-set loops in the symmetric core', n, 6)
+
+
 def run(ctx):
     r14(ctx)
     r5(ctx)
     r2(ctx)
     r3(ctx)
+    r6(ctx)
